@@ -1126,7 +1126,7 @@ def _run(ctx):
         return [gI(r_, c_, "C"), gI(r_, c_, "F"), gC2(r_, c_)]
 
     def pool1(n):
-        return [g1("Continuous1D", n), g1("Discrete", n), g1("Default1D", n), gS(n, n)]
+        return [g1("Continuous1D", n), g1("Discrete", n), g1("Default1D", n), gS(n, n), gS(n, n // 2)]
 
     def hist_case(nD, nR, ops, wrong_adjoint=False, gd0=None, gr0=None, kind="fn"):
         """ops: list of 'gm' | 'T' | ('sd', GSpec) | ('sr', GSpec)"""
@@ -1196,6 +1196,7 @@ def _run(ctx):
                     probes += [("ktfwd", lambda: cols(Tk.forward, int(Tk.domain_dim))), ("ktadj", lambda: cols(Tk.adjoint, int(Tk.range_dim))),
                                ("ktgm", lambda: dense(Tk.get_matrix()))]
                 probes += [("fwd", lambda: cols(M.forward, n_)), ("adj", lambda: cols(M.adjoint, m_)),
+                           ("ttfwd", lambda: cols(M.T.T.forward, n_)), ("ttadj", lambda: cols(M.T.T.adjoint, m_)),
                            ("tfwd", lambda: cols(M.T.forward, m_)), ("tadj", lambda: cols(M.T.adjoint, n_)),
                            ("tgm", lambda: dense(M.T.get_matrix())), ("gm", lambda: dense(M.get_matrix()))]
                 for nm_, fn_ in probes:
@@ -1227,6 +1228,10 @@ def _run(ctx):
                                   "the transposed model's matrix is not the transpose of the forward map"))
                 if not wrong_adjoint and (Ad_ is None or differ(Ad_, F_.T, exact)):
                     fails.append((keyf("adjoint"), "matrix of adjoint = transpose of matrix of forward", None if Ad_ is None else Ad_.tolist(), "<A x, y> != <x, A* y>"))
+                # the double transpose swaps back (implementation-only oracle): M.T.T.forward = M.forward, M.T.T.adjoint = M.adjoint
+                if obs.get("ttfwd") is None or differ(obs["ttfwd"], F_, exact) or (Ad_ is not None and (obs.get("ttadj") is None or differ(obs["ttadj"], Ad_, exact))):
+                    fails.append((keyf("T.T"), "M.T.T.forward = M.forward and M.T.T.adjoint = M.adjoint", {"T.T.forward": None if obs.get("ttfwd") is None else obs["ttfwd"].tolist()},
+                                  "the double transpose does not swap forward and adjoint back"))
                 # the KEPT transposed model is itself a linear model the library constructed: its adjoint must be the transpose of its forward, and
                 # its matrix must reproduce its forward map
                 if Tk is not None and not wrong_adjoint:
@@ -1277,6 +1282,12 @@ def _run(ctx):
     hist_case(4, 4, [("sd", gI(2, 2, "F")), "gm"], gd0=g1("Continuous1D", 4), gr0=g1("Continuous1D", 4))
     hist_case(4, 3, ["gm"], wrong_adjoint=True); hist_case(4, 3, [], wrong_adjoint=True)
     hist_case(6, 4, ["gm", ("sr", gI(2, 2, "F")), "gm", ("sd", gI(3, 2, "F"))]); hist_case(6, 6, [("sd", gI(2, 3, "F")), ("sr", gC2(3, 2)), "gm", "gm"])
+    # rarely hit branches of the object model: get_matrix() RAISING (0-d column of a one-parameter squeezing range; shape error after a
+    # re-assignment to a geometry of another size) leaves nothing cached; a later get_matrix() then works
+    hist_case(4, 4, ["gm", ("sr", g1("Continuous1D", 4)), "gm"], gd0=g1("Continuous1D", 4), gr0=gS(4, 1))
+    hist_case(4, 4, [("sd", g1("Continuous1D", 5)), "gm", ("sd", gI(2, 2, "F")), "gm"], gd0=g1("Continuous1D", 4), gr0=g1("Discrete", 4))
+    hist_case(4, 4, [("sr", g1("Continuous1D", 3))], gd0=g1("Continuous1D", 4), gr0=g1("Discrete", 4))
+    hist_case(4, 4, ["T", ("sr", gS(4, 1)), "gm"], gd0=g1("Continuous1D", 4), gr0=g1("Continuous1D", 4)); hist_case(4, 4, ["gm", "T", ("sd", gS(4, 2))], gd0=gS(4, 4), gr0=g1("Discrete", 4))
     # kept transposed model: witnesses of keptT_stale_counterexample (range / domain re-assigned after T), T after a cached matrix, matrix-backed parent
     hist_case(4, 4, ["T", ("sr", gI(2, 2, "F"))], gd0=gI(2, 2, "C"), gr0=gI(2, 2, "C")); hist_case(4, 4, ["T", ("sd", gI(2, 2, "F"))], gd0=gI(2, 2, "C"), gr0=gI(2, 2, "C"))
     hist_case(6, 4, ["gm", "T", ("sd", gC2(2, 3)), "gm"], gd0=gI(2, 3, "F"), gr0=gI(2, 2, "F")); hist_case(4, 4, ["T", "gm", ("sr", g1("Discrete", 4))], gd0=g1("Continuous1D", 4), gr0=g1("Continuous1D", 4))
@@ -1328,9 +1339,12 @@ def _run(ctx):
                 reps.append(("foreign-par", "cu:2:1", 1, lambda: _CA(p_.copy(), is_par=True, geometry=G[2]), p_))
             if specs[ri].par_dim == gdS.par_dim:
                 reps.append(("other-side-par", f"cu:{ri}:1", 1, lambda: _CA(p_.copy(), is_par=True, geometry=G[ri]), p_))
+            if gf_.fun_shape == gdS.fun_shape:
+                reps.append(("foreign-fun", "cu:2:0", 0, lambda: _CA(fv.reshape(gdS.fun_shape).copy(), is_par=False, geometry=G[2]), fv))
             for (rname, tagtok, ip, mk, vec) in reps:
                 desc = {"op": op, "representation": rname, "is_par": bool(ip), "callable_keeps_subclass": keeps, "dom": gd_.label, "rng": gr_.label, "foreign": gf_.label,
-                        "A": A0.tolist(), "input": np.asarray(vec).tolist(), "geometry_eq": geq, "par2fun_keeps_tag": tt}
+                        "A": A0.tolist(), "input": np.asarray(vec).tolist(), "geometry_eq": geq, "par2fun_keeps_tag": tt,
+                        "tag": None if tagtok == "plain" else [int(tagtok.split(":")[1]), tagtok.split(":")[2] == "1"], "ids": [di, ri]}
                 try:
                     with quiet():
                         o_ = meth(mk(), is_par=bool(ip))
@@ -1342,6 +1356,21 @@ def _run(ctx):
                     hh = ctx.extra_cov.setdefault("repr_decisions", {})
                     kk = f"{op}:{rname}:{'keeps' if keeps else 'strips'}"
                     hh[kk] = hh.get(kk, 0) + 1
+                    # which branch of the transcription this input takes (coverage labelling only)
+                    tg_ = desc["tag"]; gdi, gri = desc["ids"]
+                    if tg_ is None:
+                        b1, otag = ("plain-par" if desc["is_par"] else "plain-fun"), None
+                    elif geq[tg_[0]][gdi]:
+                        b1, otag = ("cu-eq-par" if tg_[1] else "cu-eq-fun"), (tg_[0], False)
+                    elif desc["is_par"]:
+                        b1, otag = ("cu-neq-par-tagkept", tg_) if tt[gdi] else ("cu-neq-par-tagdropped", None)
+                    else:
+                        b1, otag = "cu-neq-fun", tg_
+                    if not keeps:
+                        otag = None
+                    b2 = "plain" if otag is None else ("cu-neq" if not geq[otag[0]][gri] else ("cu-eq-noconversion" if otag[1] else "cu-eq-parameters"))
+                    hb = ctx.extra_cov.setdefault("repr_branches", {})
+                    hb[f"_2fun:{b1}"] = hb.get(f"_2fun:{b1}", 0) + 1; hb[f"_2par:{b2}"] = hb.get(f"_2par:{b2}", 0) + 1
                     key = f"tie:LinearModel:repr-decision:{op}:{rname}"
                     if isinstance(impl, str):
                         if rname in ("plain-par", "plain-fun", "own-par", "own-fun"):
@@ -1373,9 +1402,11 @@ def _run(ctx):
 
     for n_ in ((4, 6) if not thorough else (4, 6, 8, 9)):
         pool_ = repr_pool(n_)
-        for _ in range(5 if not thorough else 25):
+        for i_r in range(6 if not thorough else 26):
             gd_, gr_, gf_ = rng.choice(pool_), rng.choice(pool_), rng.choice(pool_)
-            repr_case(gd_, gr_, gf_, keeps=rng.random() < 0.6)
+            if i_r % 3 == 2:
+                gf_ = rng.choice([gd_, gr_])          # a "foreign" object EQUAL to one of the model's geometries (cu-eq / cu-eq-noconversion branches)
+            repr_case(gd_, gr_, gf_, keeps=(i_r % 2 == 0))
     repr_case(GSpec("Default1D", "plain", lambda: _D1(4), "id:4"), gS(4, 2), g1("Continuous1D", 4), True)      # finding 9 inside the model
     repr_case(gS(4, 2), GSpec("Default1D", "plain", lambda: _D1(4), "id:4"), g1("Discrete", 4), True)
     repr_case(g1("Continuous1D", 4), gI(2, 2, "F"), gI(2, 2, "F"), True); repr_case(gI(2, 2, "C"), gI(2, 2, "F"), g1("Continuous1D", 4), False)
@@ -1558,6 +1589,77 @@ def _run(ctx):
             tie_linear(ctx, out, res, "tie:Deconvolution1D:legacy", desc, False, keyf)
             oracle_linear(ctx, res, keyf, desc)
         jobs.append((f"lin mb {qm(A)} - id:6 id:6", h_leg))
+
+    # legacy circulant matrices against the MODEL of `_getCirculantMatrix` (`legacy`): mirror extension / np.roll / toeplitz assembly, refusals
+    def legacy_case(dim, PSF, param=None, BC="periodic", size=None):
+        named = isinstance(PSF, str)
+        desc = {"problem": "Deconvolution1D use_legacy", "dim": dim, "PSF": PSF if named else PSF.tolist(), "PSF_param": param, "BC": BC, "PSF_size": size}
+        try:
+            with quiet():
+                TPl = Deconvolution1D(dim=dim, PSF=PSF, PSF_param=param, use_legacy=True, BC=BC, PSF_size=size)
+            impl = dense(TPl.model.get_matrix())
+        except Exception as e:
+            impl = repr(e)[:100]
+        if named:
+            g_ = np.arange(dim // 2 + 1) / dim
+            nm = PSF.lower()
+            with np.errstate(all="ignore"):
+                if nm == "gauss":
+                    h0 = np.exp(-((10 if param is None else param) * g_) ** 2)
+                elif nm in ("sinc", "prolate"):
+                    h0 = np.sinc((15 if param is None else param) * g_)
+                elif nm == "vonmises":
+                    h0 = np.exp(np.cos(2 * np.pi * g_)); h0 = (h0 / h0[0]) ** (5 if param is None else param)
+                else:
+                    h0 = np.zeros(dim // 2 + 1)
+            vtok = qv(h0)
+        else:
+            vtok = qv(PSF)
+        def h(out):
+            ctx.case("deconv1d-legacy-model", desc)
+            hh = ctx.extra_cov.setdefault("legacy_circulant", {})
+            kk = f"{'named:' + PSF.lower() if named else 'custom'}:{'err' if out == 'err' else 'ok'}"
+            hh[kk] = hh.get(kk, 0) + 1
+            key = "tie:Deconvolution1D:legacy:" + ("named" if named else "custom")
+            if (out == "err") != isinstance(impl, str):
+                ctx.disagree(key + ":refusal", desc, out[:60], impl if isinstance(impl, str) else "constructed", "refusal differs")
+                return
+            if out == "err":
+                return
+            if not same(parse_L(out), impl, not named):
+                ctx.disagree(key, desc, out[:300], impl.tolist(), "legacy circulant matrix differs from the model's assembly (mirror extension / roll / toeplitz)")
+                if differ(impl, impl.T) and named:
+                    ctx.fail(key, desc, "symmetric circulant matrix (theorem legacy_named_symmetric)", impl.tolist(), "named legacy matrix is not symmetric")
+        jobs.append((f"legacy {BC} {0 if size is None else 1} {dim} {PSF if named else '-'} {vtok}", h))
+
+    for dim_ in ((2, 4, 6, 8) if not thorough else (2, 4, 6, 8, 10, 12, 16)):
+        legacy_case(dim_, nrs.randint(1, 7, size=dim_).astype(float))
+        for nm_ in ("gauss", "Sinc", "PROLATE", "vonMises"):
+            legacy_case(dim_, nm_, rng.choice([None, 1.0, 2.5, 7.0]))
+    legacy_case(5, "gauss"); legacy_case(5, np.ones(5)); legacy_case(4, np.ones(3)); legacy_case(4, "moffat"); legacy_case(4, "gauss", BC="Periodic")
+    legacy_case(4, "gauss", BC="zero"); legacy_case(4, "gauss", size=3); legacy_case(6, np.arange(1.0, 7.0), param=2.0)
+
+    # user-supplied NON-SQUARE PSFs: output shape of `_proj_forward_2D` (`projshape`) and the constructor's refusal
+    def nonsquare_case(n, s1, s2):
+        desc = {"problem": "Deconvolution2D", "dim": n, "PSF_shape": [s1, s2]}
+        Pn = nrs.randint(1, 5, size=(s1, s2)).astype(float)
+        with quiet():
+            shp = tuple(int(v) for v in tpm_._proj_forward_2D(np.ones((n, n)), Pn, "wrap").shape)
+            try:
+                Deconvolution2D(dim=n, PSF=Pn, phantom=np.ones((n, n))); ctor = "ok"
+            except Exception as e:
+                ctor = "err"
+        def h(out):
+            ctx.case("deconv2d-nonsquare", desc)
+            ms = tuple(int(v) for v in out.split(","))
+            if ms != shp:
+                ctx.disagree("tie:Deconvolution2D:nonsquare:shape", desc, list(ms), list(shp), "output shape of _proj_forward_2D differs from the model")
+            if (ms == (n, n)) != (ctor == "ok"):
+                ctx.disagree("tie:Deconvolution2D:nonsquare:refusal", desc, "constructed iff the operator maps n x n images to n x n images", ctor, "constructor refusal differs")
+        jobs.append((f"projshape {n} {s1} {s2}", h))
+    from cuqi.testproblem import _testproblem as tpm_
+    for (s1_, s2_) in [(1, 2), (2, 1), (2, 3), (3, 2), (3, 5), (5, 3), (4, 2), (1, 4), (3, 3), (4, 4), (2, 5)]:
+        nonsquare_case(rng.choice([3, 4, 5]), s1_, s2_)
 
     # ================================================================ Deconvolution2D
     def int_psf2(s, sym):
